@@ -92,6 +92,19 @@ func init() {
 		return true
 	}
 	externWrites["net.PacketConn.ReadFrom"] = []string{"I"}
+	// net.PacketConn.WriteTo on an underlying (environment) connection: reads the buffer, writes no program memory
+	externs["net.PacketConn.WriteTo"] = func(a *Act, res ssa.Value, instr ssa.Instruction, args []string, st *State, reach string) bool {
+		g := a.g
+		p := args[1]
+		n := g.havoc(a.nm("wt_n"), "Int")
+		err := g.havoc(a.nm("wt_err"), "Iface")
+		g.assumeIf(reach, fmt.Sprintf("(and (<= 0 %s) (<= %s (sllen %s)))", n, n, p))
+		if res != nil {
+			a.bindResults(res, []string{n, err})
+		}
+		return true
+	}
+	externWrites["net.PacketConn.WriteTo"] = []string{}
 	builderWrite := func(a *Act, res ssa.Value, instr ssa.Instruction, args []string, st *State, reach string) bool {
 		g := a.g
 		// (*strings.Builder).WriteString/WriteByte/Write/WriteRune: modifies the builder object only (assumed)
